@@ -14,12 +14,14 @@ mod c17;
 mod c14;
 mod c14_gen;
 mod c14_jar;
+mod c15;
 mod c19;
 mod c20;
 mod choice;
 mod corpus;
 mod engine;
 mod proj;
+mod refbridge;
 mod refdiff;
 mod refremap;
 mod refmap;
@@ -53,6 +55,9 @@ mod download {
 #[allow(dead_code, unused, deprecated, clippy::all)]
 #[path = "/repo/src/version_graph.rs"]
 mod version_graph;
+#[allow(dead_code, unused, deprecated, clippy::all)]
+#[path = "/repo/src/specialized_methods/mod.rs"]
+mod specialized_methods;
 
 pub const DEFAULT_SEED: u64 = 20260929;
 
@@ -117,6 +122,7 @@ fn dispatch(a: &Args, digest_only: bool) -> i32 {
         "C17" => drive(&c17::C17, a, digest_only),
         "C13" => drive(&c13::C13, a, digest_only),
         "C14" => drive(&c14::C14, a, digest_only),
+        "C15" => drive(&c15::C15, a, digest_only),
         "C19" => drive(&c19::C19, a, digest_only),
         "C20" => drive(&c20::C20, a, digest_only),
         other => {
